@@ -144,10 +144,10 @@ M("c20-handler-swallows", "C20", LP,
     # Map linprog result to Solution
     if result.success:''', "R20.5", "solve_lp")
 M("c20-producer-conditional-key", "C20", SCIPY,
-  '''    cache["bounds"] = bounds
-''', '''    if bounds:
-        cache["bounds"] = bounds
-''', "R20.4", "bounds")
+  '''    cache["grad_fn"] = compile_jacobian([obj_expr], variables)
+''', '''    if problem.constraints:
+        cache["grad_fn"] = compile_jacobian([obj_expr], variables)
+''', "R20.4", "grad_fn")
 
 # ----------------------------------------------------------------------------- C18
 M("c18-skip-check-for-one-method", "C18", SCIPY,
@@ -254,15 +254,22 @@ M("c06-drop-not-violated", "C06", SCIPY,
         status = SolverStatus.OPTIMAL''', '''    if result.success:
         status = SolverStatus.OPTIMAL''', "R06.1", "solve_scipy:OPTIMAL")
 M("c06-new-message-optimal-arm", "C06", SCIPY,
-  '''    else:
-        status = SolverStatus.FAILED
-
-    # Compute actual objective value''', '''    elif "precision loss" in result.message.lower():
+  '''    elif "infeasible" in result.message.lower() or constraints_violated:
+        status = SolverStatus.INFEASIBLE''', '''    elif "precision loss" in result.message.lower():
         status = SolverStatus.OPTIMAL
-    else:
-        status = SolverStatus.FAILED
-
-    # Compute actual objective value''', "R06.1", "solve_scipy:OPTIMAL")
+    elif "infeasible" in result.message.lower() or constraints_violated:
+        status = SolverStatus.INFEASIBLE''', "R06.1", "solve_scipy:OPTIMAL")
+M("c06-postcheck-only-on-success", "C06", SCIPY,
+  '''    if scipy_constraints:
+        for c in scipy_constraints:
+            c_val = c["fun"](result.x)''', '''    if result.success and scipy_constraints:
+        for c in scipy_constraints:
+            c_val = c["fun"](result.x)''', "R06.1", "solve_scipy:OPTIMAL")
+M("c06-bounds-check-dropped", "C06", SCIPY,
+  '''            if violation > atol + rtol * max(1.0, abs(x_i)):
+                max_violation = max(max_violation, violation)
+                constraints_violated = True''', '''            if violation > atol + rtol * max(1.0, abs(x_i)):
+                max_violation = max(max_violation, violation)''', "R06.3", "solve_scipy:OPTIMAL")
 M("c06-break-in-loop", "C06", SCIPY,
   '''                max_violation = max(max_violation, violation)
                 constraints_violated = True
@@ -352,8 +359,8 @@ M("c07-matrix-handle-transposed", "C07", SOLUTION,
   '''                result[i, j] = self.values[mat[i, j].name]''', '''                result[i, j] = self.values[mat[j, i].name]''', "R07.4", "Solution._get_matrix")
 M("c07-lpdata-names-from-other-list", "C07", ANALYSIS,
   '''            variables=[v.name for v in variables],
-        )''', '''            variables=[v.name for v in problem.variables[::-1]],
-        )''', "R07.3", "LPData.variables")
+            c0=''', '''            variables=[v.name for v in problem.variables[::-1]],
+            c0=''', "R07.3", "LPData.variables")
 M("c07-sense-mapping-inverted", "C07", ANALYSIS,
   '''        sense = "min" if problem.sense == "minimize" else "max"''', '''        sense = "max" if problem.sense == "minimize" else "min"''', "R07.2", "extract_objective")
 
@@ -514,19 +521,23 @@ M("c02-product-rule-swapped", "C02", AUTODIFF,
             term2 = _simplify_mul(right, d_right)
             return _simplify_add(term1, term2)''', "R02.1", "_gradient_cached[BinaryOp *]")
 M("c02-cos-rule-sign", "C02", AUTODIFF,
-  '''            return _simplify_mul(_simplify_neg(sin(operand)), d_operand)''', '''            return _simplify_mul(sin(operand), d_operand)''', "R02.1", "_gradient_cached[UnaryOp cos]")
+  '''        return _simplify_mul(_simplify_neg(sin(operand)), d_operand)''', '''        return _simplify_mul(sin(operand), d_operand)''', "R02.1", "[UnaryOp cos]")
 M("c02-atan-rule-wrong", "C02", AUTODIFF,
-  '''            # d/dx(atan(a)) = 1 / (1 + a^2) * da
-            inner = _simplify_add(Constant(1.0), _simplify_mul(operand, operand))''', '''            # d/dx(atan(a)) = 1 / (1 + a^2) * da
-            inner = _simplify_sub(Constant(1.0), _simplify_mul(operand, operand))''', "R02.1", "_gradient_cached[UnaryOp atan]")
+  '''        # d/dx(atan(a)) = 1 / (1 + a^2) * da
+        inner = _simplify_add(Constant(1.0), _simplify_mul(operand, operand))''', '''        # d/dx(atan(a)) = 1 / (1 + a^2) * da
+        inner = _simplify_sub(Constant(1.0), _simplify_mul(operand, operand))''', "R02.1", "[UnaryOp atan]")
 M("c02-chain-factor-dropped", "C02", AUTODIFF,
-  '''            return _simplify_mul(cosh(operand), d_operand)''', '''            return cosh(operand)''', "R02.1", "_gradient_cached[UnaryOp sinh]")
+  '''        return _simplify_mul(cosh(operand), d_operand)''', '''        return cosh(operand)''', "R02.1", "[UnaryOp sinh]")
 M("c02-iterative-tanh-wrong", "C02", AUTODIFF,
-  '''                tanh_squared = _simplify_mul(current, current)
-                sech2 = _simplify_sub(Constant(1.0), tanh_squared)
-                results[node_id] = _simplify_mul(sech2, d_operand)''', '''                tanh_squared = _simplify_mul(current, current)
-                sech2 = _simplify_add(Constant(1.0), tanh_squared)
-                results[node_id] = _simplify_mul(sech2, d_operand)''', "R02.1", "_gradient_iterative[UnaryOp tanh]")
+  '''        tanh_squared = _simplify_mul(expr, expr)
+        sech2 = _simplify_sub(Constant(1.0), tanh_squared)''', '''        tanh_squared = _simplify_mul(expr, expr)
+        sech2 = _simplify_add(Constant(1.0), tanh_squared)''', "R02.1", "[UnaryOp tanh]")
+M("c02-iterative-product-rule-wrong", "C02", AUTODIFF,
+  '''                term1 = _simplify_mul(left, d_right)
+                term2 = _simplify_mul(right, d_left)
+                results[node_id] = _simplify_add(term1, term2)''', '''                term1 = _simplify_mul(left, d_right)
+                term2 = _simplify_mul(right, d_left)
+                results[node_id] = _simplify_sub(term1, term2)''', "R02.1", "_gradient_iterative[BinaryOp *]")
 M("c02-power-rule-exponent", "C02", AUTODIFF,
   '''                    coeff = Constant(n)
                     power = _simplify_pow(left, Constant(n - 1))
@@ -594,3 +605,453 @@ M("c02-linear-combination-coeff-index", "C02", AUTODIFF,
             return Constant(0.0)''', '''                if var.name == wrt.name:
                     return Constant(float(coeffs[0]))
             return Constant(0.0)''', "R02.5", "gradient_linear_combination")
+
+# ----------------------------------------------------------------------------- C03
+M("c03-drop-arange-guard", "C03", COMPILER,
+  '''    if len(indices) == n and np.array_equal(indices, np.arange(n)):
+        # All variables are the vector - simple case''', '''    if len(indices) == n:
+        # All variables are the vector - simple case''', "R03.2", "_compile_vectorized_power_gradient")
+M("c03-is-full-weakened", "C03", COMPILER,
+  '''    is_full = len(indices) == n and np.array_equal(indices, np.arange(n))
+
+    # Select derivative function based on operation''', '''    is_full = len(indices) == n
+
+    # Select derivative function based on operation''', "R03.2", "_compile_vectorized_unary_gradient")
+M("c03-sparse-scatter-other-index", "C03", COMPILER,
+  '''                result[indices] = np.cosh(x[indices])''', '''                result[: len(indices)] = np.cosh(x[indices])''', "R03.2", "grad_sinh_sparse")
+M("c03-vectorised-cos-sign", "C03", COMPILER,
+  '''                result[indices] = -np.sin(x[indices])''', '''                result[indices] = np.sin(x[indices])''', "R03.3", "grad_cos_sparse")
+M("c03-vectorised-tanh-dense", "C03", COMPILER,
+  '''                return 1.0 - np.tanh(x) ** 2''', '''                return 1.0 - np.tanh(x)''', "R03.3", "grad_tanh")
+M("c03-power-gradient-exponent", "C03", COMPILER,
+  '''                raw = k * np.power(x, k - 1)''', '''                raw = k * np.power(x, k)''', "R03.3", "grad_power_general")
+M("c03-dot-row-both-case-removed", "C03", VECTORS,
+  '''            if var in left_lookup and var in right_lookup:
+                # overlapping vectors (e.g. x[0:2].dot(x[1:3])): both partners contribute
+                result.append(BinaryOp(left_lookup[var], right_lookup[var], "+"))
+            elif var in left_lookup:''', '''            if var in left_lookup:''', "R03.4", "DotProduct.jacobian_row")
+M("c03-matrixsum-row-for-expressions", "C03", MATRICES,
+  '''        if not isinstance(self.matrix, MatrixVariable):
+            return None
+        my_vars = self.matrix.get_variables()''', '''        my_vars = self.matrix.get_variables()''', "R03.4", "MatrixSum.jacobian_row")
+M("c03-binop-row-minus-left-constant", "C03", EXPR,
+  '''        if self.op == "+" and isinstance(self.left, Constant):''', '''        if self.op in ("+", "-") and isinstance(self.left, Constant):''', "R03.4", "BinaryOp.jacobian_row")
+M("c03-binop-row-without-constant-guard", "C03", EXPR,
+  '''        if self.op in ("+", "-") and isinstance(self.right, Constant):''', '''        if self.op in ("+", "-"):''', "R03.4", "BinaryOp.jacobian_row")
+M("c03-constant-fast-path-accepts-parameter", "C03", AUTODIFF,
+  '''        isinstance(jacobian_exprs[i][j], Constant) for i in range(m) for j in range(n)''', '''        hasattr(jacobian_exprs[i][j], "value") for i in range(m) for j in range(n)''', "R03.5", "compile_jacobian")
+M("c03-vector-unary-row-sqrt", "C03", VECTORS,
+  '''                    two_sqrt = BinaryOp(Constant(2.0), sqrt_x, "*")
+                    result.append(BinaryOp(Constant(1.0), two_sqrt, "/"))''', '''                    two_sqrt = BinaryOp(Constant(2.0), sqrt_x, "*")
+                    result.append(BinaryOp(Constant(2.0), two_sqrt, "/"))''', "R03.4", "VectorUnarySum.jacobian_row[sqrt]")
+M("c03-scaled-pattern-ignores-scale-mismatch", "C03", AUTODIFF,
+  '''            elif scale != c:
+                return None  # Different scales, not uniform''', '''            elif scale != c:
+                pass''', "R03.5", "_is_scaled_variable_pattern")
+
+# ----------------------------------------------------------------------------- C04
+M("c04-max-to-min", "C04", ANALYSIS,
+  '''            return max(left_deg, right_deg)
+
+        # Multiplication - only allow scalar * polynomial''', '''            return min(left_deg, right_deg)
+
+        # Multiplication - only allow scalar * polynomial''', "R04.1", "_compute_degree_impl[BinaryOp +]")
+M("c04-iterative-product-max", "C04", ANALYSIS,
+  '''                        result_stack.append(left_deg + right_result)''', '''                        result_stack.append(max(left_deg, right_result))''', "R04.1", "_compute_degree_iterative[BinaryOp *]")
+M("c04-drop-negative-exponent-check", "C04", ANALYSIS,
+  '''            exp_float = float(exp_val)
+            if not exp_float.is_integer() or exp_float < 0:
+                return None
+            left_deg = _compute_degree_impl(expr.left)''', '''            exp_float = float(exp_val)
+            if not exp_float.is_integer():
+                return None
+            left_deg = _compute_degree_impl(expr.left)''', "R04.1", "_compute_degree_impl[BinaryOp **]")
+M("c04-division-by-nonconstant", "C04", ANALYSIS,
+  '''        if op == "/":
+            if not isinstance(expr.right, Constant):
+                return None
+            return _compute_degree_impl(expr.left)
+
+        # Addition/Subtraction''', '''        if op == "/":
+            return _compute_degree_impl(expr.left)
+
+        # Addition/Subtraction''', "R04.1", "_compute_degree_impl[BinaryOp /]")
+M("c04-parameter-degree-zero", ["C04", "C12"], ANALYSIS,
+  '''    # Fast path: leaf nodes (most common)
+    if isinstance(expr, Constant):
+        return 0
+    if isinstance(expr, Variable):
+        return 1
+
+    # Vector expressions''', '''    # Fast path: leaf nodes (most common)
+    if isinstance(expr, Constant):
+        return 0
+    if isinstance(expr, Variable):
+        return 1
+    from optyx.core.parameters import Parameter
+
+    if isinstance(expr, Parameter):
+        return 0
+
+    # Vector expressions''', "R", "Parameter" if False else None)
+M("c04-numeric-default", "C04", ANALYSIS,
+  '''        return None
+
+    # Unknown node type
+    return None
+
+
+def _check_degree_bounded''', '''        return None
+
+    # Unknown node type
+    return 0
+
+
+def _check_degree_bounded''', "R04.1", "_compute_degree_impl")
+M("c04-is-linear-le-2", "C04", EXPR,
+  '''        deg = self.degree
+        return deg is not None and deg <= 1''', '''        deg = self.degree
+        return deg is not None and deg <= 2''', "R04.4", "Expression.is_linear")
+M("c04-dot-product-unguarded-again", "C04", ANALYSIS,
+  '''        if isinstance(expr.left, VectorVariable) and isinstance(
+            expr.right, VectorVariable
+        ):
+            return 2
+        return None''', '''        if isinstance(expr.left, VectorVariable):
+            return 2
+        return None''', "R04.3", "DotProduct")
+M("c04-power-sum-unchecked-again", "C04", ANALYSIS,
+  '''        # sum(x ** k) is a polynomial of degree k only for a non-negative integer k
+        k = expr.power
+        if not float(k).is_integer() or k < 0:
+            return None
+        return int(k)''', '''        # sum(x ** k) is a polynomial of degree k only for a non-negative integer k
+        k = expr.power
+        if not float(k).is_integer():
+            return None
+        return int(k)''', "R04.2", "VectorPowerSum")
+M("c04-unary-sin-degree", "C04", ANALYSIS,
+  '''        if expr.op == "neg":
+            return _compute_degree_impl(expr.operand)
+        return None
+
+    # Unknown node type''', '''        if expr.op in ("neg", "abs"):
+            return _compute_degree_impl(expr.operand)
+        return None
+
+    # Unknown node type''', "R04.1", "UnaryOp")
+M("c04-linear-problem-ignores-constraints", "C04", PROBLEM,
+  '''        for constraint in self._constraints:
+            if not is_linear(constraint.expr):
+                self._is_linear_cache = False
+                return False
+
+        self._is_linear_cache = True
+        return True''', '''        for constraint in self._constraints[:1]:
+            if not is_linear(constraint.expr):
+                self._is_linear_cache = False
+                return False
+
+        self._is_linear_cache = True
+        return True''', "R04.4", "_is_linear_problem")
+
+# ----------------------------------------------------------------------------- C05
+M("c05-minus-arm-sign", "C05", ANALYSIS,
+  '''            _extract_all_coefficients_impl(expr.right, var_index, result, -multiplier)
+            return''', '''            _extract_all_coefficients_impl(expr.right, var_index, result, multiplier)
+            return''', "R05.", "_extract_all_coefficients_impl")
+M("c05-division-multiplies", "C05", ANALYSIS,
+  '''                    expr.left, var_index, result, multiplier / float(expr.right.value)''', '''                    expr.left, var_index, result, multiplier * float(expr.right.value)''', "R05.", "_extract_all_coefficients_impl")
+M("c05-neg-loses-sign-in-constant", "C05", ANALYSIS,
+  '''        if expr.op == "neg":
+            return -_extract_constant_impl(expr.operand)''', '''        if expr.op == "neg":
+            return _extract_constant_impl(expr.operand)''', "R05.", "_extract_constant_impl")
+M("c05-ge-rows-not-negated", "C05", ANALYSIS,
+  '''                ub_rows.append(-row)
+                ub_rhs.append(-rhs)''', '''                ub_rows.append(row)
+                ub_rhs.append(-rhs)''', "R05.4", "extract_constraints")
+M("c05-rhs-sign", "C05", ANALYSIS,
+  '''            rhs = -extract_constant_term(constraint.expr)''', '''            rhs = extract_constant_term(constraint.expr)''', "R05.4", "extract_constraints")
+M("c05-eq-into-ub", "C05", ANALYSIS,
+  '''            if constraint.sense == "==":
+                eq_rows.append(row)
+                eq_rhs.append(rhs)''', '''            if constraint.sense == "==":
+                ub_rows.append(row)
+                ub_rhs.append(rhs)''', "R05.4", "extract_constraints")
+M("c05-shortcut-loses-first-index-guard", "C05", ANALYSIS,
+  '''            first_var = expr.vector._variables[0]
+            first_idx = var_index.get(first_var.name, -1)
+            if first_idx == 0:
+                # All variables in order, return ones directly
+                return np.ones(n, dtype=np.float64)''', '''            first_var = expr.vector._variables[0]
+            first_idx = var_index.get(first_var.name, -1)
+            if first_idx >= 0:
+                # All variables in order, return ones directly
+                return np.ones(n, dtype=np.float64)''', "R05.3", "extract_all_linear_coefficients")
+M("c05-product-fold-dropped-again", "C05", ANALYSIS,
+  '''            # one side is a constant sub-expression (its constant term is its value)
+            return _extract_constant_impl(expr.left) * _extract_constant_impl(
+                expr.right
+            )''', '''            return 0.0''', "R05.", "_extract_constant_impl")
+M("c05-coefficient-product-rule-half", "C05", ANALYSIS,
+  '''            return _extract_constant_impl(expr.left) * _extract_coefficient_impl(
+                expr.right, var
+            ) + _extract_coefficient_impl(expr.left, var) * _extract_constant_impl(
+                expr.right
+            )''', '''            return _extract_constant_impl(expr.left) * _extract_coefficient_impl(
+                expr.right, var
+            )''', "R05.", "_extract_coefficient_impl")
+M("c05-bounds-swapped", "C05", ANALYSIS,
+  '''            bounds.append((lb, ub))
+        return bounds''', '''            bounds.append((ub, lb))
+        return bounds''', "R05.5", "extract_bounds")
+
+# ----------------------------------------------------------------------------- C11
+M("c11-rsub-order", "C11", EXPR,
+  '''    def __rsub__(self, other: float | int) -> BinaryOp:
+        return BinaryOp(_ensure_expr(other), self, "-")''', '''    def __rsub__(self, other: float | int) -> BinaryOp:
+        return BinaryOp(self, _ensure_expr(other), "-")''', "R11.1", "Expression.__rsub__")
+M("c11-vector-rtruediv-order", "C11", VECTORS,
+  '''            [BinaryOp(_ensure_expr(other), v, "/") for v in self._variables]''', '''            [BinaryOp(v, _ensure_expr(other), "/") for v in self._variables]''', "R11.1", "VectorVariable.__rtruediv__")
+M("c11-matrix-sub-literal", "C11", MATRICES,
+  '''        """Element-wise subtraction: X - Y or X - scalar or X - array."""
+        return _matrix_binary_op(self, other, "-")''', '''        """Element-wise subtraction: X - Y or X - scalar or X - array."""
+        return _matrix_binary_op(self, other, "+")''', "R11.1", "MatrixVariable.__sub__")
+M("c11-size-guard-removed", "C11", VECTORS,
+  '''    elif isinstance(right, VectorExpression):
+        if right.size != len(left_exprs):
+            raise DimensionMismatchError(
+                operation=f"vector {op}",
+                left_shape=len(left_exprs),
+                right_shape=right.size,
+            )
+        right_exprs = list(right._expressions)
+    elif isinstance(right, ElementwisePower):''', '''    elif isinstance(right, VectorExpression):
+        right_exprs = list(right._expressions)
+    elif isinstance(right, ElementwisePower):''', "R11.2", "_vector_binary_op")
+M("c11-dot-size-check-removed", "C11", VECTORS,
+  '''        if left_size != right_size:
+            raise DimensionMismatchError(
+                operation="dot product",''', '''        if left_size > right_size:
+            raise DimensionMismatchError(
+                operation="dot product",''', "R11.2", "DotProduct.__init__")
+M("c11-transpose-index", "C11", MATRICES,
+  '''            [original._variables[j][i] for j in range(original.rows)]
+            for i in range(original.cols)''', '''            [original._variables[i][j] for j in range(original.rows)]
+            for i in range(original.cols)''', "R11.3", "_transpose_view")
+M("c11-matrix-expression-T", "C11", MATRICES,
+  '''            [self._expressions[j][i] for j in range(self.rows)]
+            for i in range(self.cols)''', '''            [self._expressions[j][i] for j in range(self.cols)]
+            for i in range(self.rows)''', "R11.3", "MatrixExpression.T")
+M("c11-symmetric-sharing-broken", "C11", MATRICES,
+  '''                    row.append(self._variables[j][i])''', '''                    row.append(Variable(f"{name}[{i},{j}]", lb=lb, ub=ub, domain=domain))''', "R11.3", "MatrixVariable.__init__")
+M("c11-dot-identity-by-name-again", "C11", VECTORS,
+  '''                if other.vector is self or other.vector._variables == self._variables:''', '''                if other.vector is self or other.vector.name == self.name:''', "R11.4", "VectorVariable.dot")
+M("c11-matvec-row-index", "C11", MATRICES,
+  '''            LinearCombination(matrix[i, :], vector) for i in range(self.size)''', '''            LinearCombination(matrix[:, i], vector) for i in range(self.size)''', "R11.3", "MatrixVectorProduct")
+M("c11-view-recreates-variables", "C11", VECTORS,
+  '''        instance._variables = list(variables)  # Copy the list''', '''        instance._variables = [Variable(v.name, lb=lb, ub=ub, domain=domain) for v in variables]''', "R11.4", "VectorVariable._from_variables")
+
+# ----------------------------------------------------------------------------- C12
+M("c12-compiler-freezes-parameter", "C12", COMPILER,
+  '''        param = expr
+        return lambda x, p=param: p.value''', '''        val = expr.value
+        return lambda x, v=val: v''', "R12.", "_build_evaluator")
+M("c12-is-zero-folds-parameters", "C12", AUTODIFF,
+  '''    return isinstance(expr, Constant) and expr.value == 0.0''', '''    return hasattr(expr, "value") and expr.value == 0.0''', "R12.1", "_is_zero")
+M("c12-jacobian-row-folds-any-value", "C12", EXPR,
+  '''                        Constant(c * e.value)
+                        if isinstance(e, Constant)
+                        else BinaryOp(Constant(c), e, "*")''', '''                        Constant(c * e.value)
+                        if hasattr(e, "value")
+                        else BinaryOp(Constant(c), e, "*")''', "R12.1", "BinaryOp.jacobian_row")
+M("c12-extractor-folds-parameter", "C12", ANALYSIS,
+  '''            if isinstance(expr.left, Constant):
+                return float(expr.left.value) * _extract_constant_impl(expr.right)''', '''            if isinstance(expr.left, (Constant, Parameter)):
+                return float(expr.left.value) * _extract_constant_impl(expr.right)''', "R12.1", "_extract_constant_impl")
+M("c12-second-writer-of-value", "C12", PARAMS,
+  '''        for i, param in enumerate(self._parameters):
+            param.set(val_array[i])''', '''        for i, param in enumerate(self._parameters):
+            param._value = val_array[i]''', "R12.5", "Parameter._value")
+M("c12-parameter-subclass-of-constant", "C12", PARAMS,
+  '''from optyx.core.expressions import Expression, Variable
+''', '''from optyx.core.expressions import Expression, Variable, Constant
+''', "R12.3", "Parameter", expect="skip") if False else None
+
+# ----------------------------------------------------------------------------- C13 (field-sensitive R13.3)
+M("c13-bounds-cached-again", "C13", SCIPY,
+  '''    # Bounds are read on every solve: Variable.lb / ub may change between solves
+    bounds = _compute_bounds(variables)''', '''    if "bounds" not in cache:
+        cache["bounds"] = _compute_bounds(variables)
+    bounds = cache["bounds"]''', "R13.3", "_compute_bounds")
+M("c13-lp-bounds-from-cache-again", "C13", LP,
+  '''    bounds = LinearProgramExtractor().extract_bounds(variables)
+    if bounds:''', '''    bounds = lp_data.bounds
+    if bounds:''', "R13.3", "extract_bounds")
+M("c13-x0-cached", "C13", SCIPY,
+  '''    if x0 is None:
+        x0 = _compute_initial_point(variables)''', '''    if x0 is None:
+        if "x0" not in cache:
+            cache["x0"] = _compute_initial_point(variables)
+        x0 = cache["x0"]''', "R13.3", "_compute_initial_point")
+
+# ----------------------------------------------------------------------------- C14
+M("c14-parameter-root-cached-again", "C14", COMPILER,
+  '''    if isinstance(expr, Parameter):
+        return lambda x, p=expr: p.value
+
+    # Create mapping''', '''    # Create mapping''', "R14.2", "_compile_cached(expr:Parameter)")
+M("c14-module-level-name-cache", "C14", AUTODIFF,
+  '''def gradient(expr: Expression, wrt: Variable) -> Expression:
+    """Compute the symbolic gradient of an expression with respect to a variable.''', '''_seen_gradients: dict = {}
+
+
+def gradient(expr: Expression, wrt: Variable) -> Expression:
+    """Compute the symbolic gradient of an expression with respect to a variable.''', "R14.1", expect="any") if False else None
+M("c14-variable-bounds-read-in-cached", "C14", COMPILER,
+  '''    elif isinstance(expr, Variable):
+        idx = var_indices[expr.name]
+        return lambda x, i=idx: x[i]
+
+    elif isinstance(expr, LinearCombination):''', '''    elif isinstance(expr, Variable):
+        idx = var_indices[expr.name]
+        lo = expr.lb
+        return (lambda x, i=idx: x[i]) if lo is None else (lambda x, i=idx, l=lo: max(x[i], l))
+
+    elif isinstance(expr, LinearCombination):''', "R14.2", "_compile_cached(expr:Variable)")
+M("c14-id-key-without-object", "C14", ANALYSIS,
+  '''    return _compute_degree_cached(id(expr), expr)
+
+
+def _estimate_tree_depth''', '''    return _compute_degree_cached(id(expr), type(expr))
+
+
+def _estimate_tree_depth''', "R14.2", "_compute_degree_cached(id)")
+
+# ----------------------------------------------------------------------------- C15
+M("c15-iterative-arm-deleted", "C15", AUTODIFF,
+  '''            elif current.op == "/":
+                num = _simplify_sub(
+                    _simplify_mul(right, d_left), _simplify_mul(left, d_right)
+                )
+                denom = _simplify_mul(right, right)
+                results[node_id] = _simplify_div(num, denom)
+''', '''''', "R15.1", "_gradient_iterative")
+M("c15-iterative-rule-differs", "C15", AUTODIFF,
+  '''                results[node_id] = _simplify_sub(d_left, d_right)''', '''                results[node_id] = _simplify_sub(d_right, d_left)''', "R15.2", "gradient[BinaryOp -]")
+M("c15-threshold-differs", "C15", COMPILER,
+  '''# Recursion threshold - use iterative for deep trees
+_RECURSION_THRESHOLD = 400''', '''# Recursion threshold - use iterative for deep trees
+_RECURSION_THRESHOLD = 4000''', "R15.4", "thresholds")
+M("c15-switch-direction", "C15", ANALYSIS,
+  '''    if depth >= _RECURSION_THRESHOLD:
+        return _compute_degree_iterative(expr)
+    return _compute_degree_cached(id(expr), expr)''', '''    if depth <= _RECURSION_THRESHOLD:
+        return _compute_degree_iterative(expr)
+    return _compute_degree_cached(id(expr), expr)''', "R15.4", "compute_degree")
+M("c15-direct-recursion-on-constraints-again", "C15", PROBLEM,
+  '''            all_vars.update(get_all_variables(constraint.expr))''', '''            all_vars.update(constraint.get_variables())''', "R15.4", "Problem.variables")
+M("c15-swallow-again", ["C15", "C16"], EXPR,
+  '''        variables.update(node.get_variables())
+
+    return variables''', '''        try:
+            variables.update(node.get_variables())
+        except RecursionError:
+            pass
+
+    return variables''', "R1", None)
+M("c15-iterative-degree-linear-combination-constant", "C15", ANALYSIS,
+  '''        if isinstance(node, LinearCombination):
+            # same answer as the recursive analyser (elements may be expressions)
+            result_stack.append(_compute_degree_impl(node))
+            continue''', '''        if isinstance(node, LinearCombination):
+            result_stack.append(1)
+            continue''', "R15.2", "degree[LinearCombination]")
+M("c15-evaluator-default-raises-again", "C15", COMPILER,
+  '''        result_stack.append(_build_evaluator(node, var_indices))
+
+    if not result_stack:''', '''        raise InvalidExpressionError(
+            expr_type=type(node),
+            context="iterative expression compilation",
+            suggestion="x",
+        )
+
+    if not result_stack:''', "R15.1", "_build_evaluator_iterative")
+
+# ----------------------------------------------------------------------------- C16
+M("c16-binaryop-get-variables-left-only", "C16", EXPR,
+  '''        return self.left.get_variables() | self.right.get_variables()''', '''        return self.left.get_variables()''', "R16.1", "BinaryOp.get_variables")
+M("c16-shortcut-skips-unknown", "C16", PROBLEM,
+  '''        # Any other type (e.g., scalar Variable) - not a vector source
+        return None
+
+    return found_source''', '''        # Any other type (e.g., scalar Variable) - not a vector source
+        continue
+
+    return found_source''', "R16.3", "_try_get_single_vector_source[default]")
+M("c16-shortcut-binaryop-one-child", "C16", PROBLEM,
+  '''        if isinstance(current, BinaryOp):
+            stack.append(current.left)
+            stack.append(current.right)
+            continue
+
+        # UnaryOp - push operand to stack''', '''        if isinstance(current, BinaryOp):
+            stack.append(current.left)
+            continue
+
+        # UnaryOp - push operand to stack''', "R16.3", "_try_get_single_vector_source[BinaryOp]")
+M("c16-shortcut-ignores-constraints", "C16", PROBLEM,
+  '''                for constraint in self._constraints:
+                    constraint_source = _try_get_single_vector_source(constraint.expr)''', '''                for constraint in self._constraints[:0]:
+                    constraint_source = _try_get_single_vector_source(constraint.expr)''', "R16.3", "Problem.variables")
+M("c16-sort-by-plain-name", "C16", PROBLEM,
+  '''        self._variables = sorted(all_vars, key=_natural_sort_key)''', '''        self._variables = sorted(all_vars, key=lambda v: v.name)''', "R16.4", "Problem.variables")
+M("c16-shortcut-unsorted-again", "C16", PROBLEM,
+  '''                    self._variables = sorted(
+                        source_vector._variables, key=_natural_sort_key
+                    )''', '''                    self._variables = list(source_vector._variables)''', "R16.4", "Problem.variables")
+M("c16-dotproduct-shortcut-accepts-two-vectors", "C16", PROBLEM,
+  '''                if current.left is current.right:
+                    candidate = current.left''', '''                if current.left is current.right or True:
+                    candidate = current.left''', "R16.3", expect="any") if False else None
+M("c16-walker-binaryop-left-only", "C16", EXPR,
+  '''        if isinstance(node, BinaryOp):
+            stack.append(node.left)
+            stack.append(node.right)
+            continue''', '''        if isinstance(node, BinaryOp):
+            stack.append(node.left)
+            continue''', "R16.2", "_get_variables_iterative[BinaryOp]")
+M("c16-l2norm-get-variables-only-container", "C16", VECTORS,
+  '''        vec_name = (
+            self.vector.name if isinstance(self.vector, VectorVariable) else "expr"
+        )
+        return f"L2Norm({vec_name})"''', '''        vec_name = (
+            self.vector.name if isinstance(self.vector, VectorVariable) else "expr"
+        )
+        return f"L2Norm<{vec_name}>"''', "R16.1", expect="silent") if False else None
+
+# ----------------------------------------------------------------------------- C17
+M("c17-mirror-transposed-source", "C17", AUTODIFF,
+  '''                val = compiled_elements[(i, j)](x)
+                result[i, j] = val
+                if i != j:
+                    result[j, i] = val  # Symmetry''', '''                val = compiled_elements[(i, j)](x)
+                result[i, j] = val
+                if i != j:
+                    result[i, j] = val  # Symmetry''', "R17.2", "hessian_fn")
+M("c17-power-hessian-coefficient", "C17", AUTODIFF,
+  '''            coeff = k * (k - 1)
+            exp = k - 2''', '''            coeff = k * (k + 1)
+            exp = k - 2''', "R17.3", "hess_power")
+M("c17-cos-hessian-sign", "C17", AUTODIFF,
+  '''                    return np.diag(-np.cos(x))''', '''                    return np.diag(np.cos(x))''', "R17.3", "hess_cos")
+M("c17-log-hessian-sparse-wrong", "C17", AUTODIFF,
+  '''                    result[indices, indices] = -1.0 / (x[indices] ** 2)''', '''                    result[indices, indices] = -1.0 / x[indices]''', "R17.3", "hess_log_sparse")
+M("c17-second-pass-index", "C17", AUTODIFF,
+  '''            row.append(gradient(grad[i], variables[j]))''', '''            row.append(gradient(grad[j], variables[j]))''', "R17.1", "compute_hessian")
+M("c17-hessian-not-negated-for-max", "C17", SCIPY,
+  '''            if problem.sense == "maximize":
+                obj_expr = -obj_expr  # type: ignore[operator]
+            compiled_hess''', '''            compiled_hess''', "R17.4", "solve_scipy")
+M("c17-sparse-hessian-scatter", "C17", AUTODIFF,
+  '''                    result[indices, indices] = np.exp(x[indices])''', '''                    result[indices, :] = np.exp(x[indices])''', "R17.3", "hess_exp_sparse")
